@@ -316,6 +316,41 @@ func (x *runner) scenarioSpecificChecks(stage string) {
 			}
 		}
 	}
+	// --- no request stops at a checkpoint the service has already passed -----------------------------------------------
+	// (any scenario with checkpoints: a getheaders whose first locator entry - the service's tip, or the block it
+	// continues from - is at or above the checkpoint whose hash it names as stop is answered with nothing by a peer that
+	// honours the stop hash)
+	if stage == "end" && len(s.CheckpointHeights) > 0 && !s.DisableCheckpoints && s.Engine == "legacy" {
+		x.rig.Log.mu.Lock()
+		ghs := append([]GetHeadersSeen(nil), x.rig.Log.GetHdr...)
+		x.rig.Log.mu.Unlock()
+		cpAt := map[refmodel.Hash]int32{}
+		for _, ch := range s.CheckpointHeights {
+			if int(ch) >= 1 && int(ch) <= len(x.w.Honest) {
+				cpAt[x.w.Honest[ch-1].HashOf()] = ch
+			}
+		}
+		judged := 0
+		for _, g := range ghs {
+			ch, isCp := cpAt[g.Stop]
+			if !isCp || len(g.Locator) == 0 {
+				continue
+			}
+			from, known := x.w.Height[g.Locator[0]]
+			if g.Locator[0] == x.rig.Genesis {
+				from, known = 0, true
+			}
+			if !known {
+				continue
+			}
+			judged++
+			if from >= ch {
+				x.fail("checkpoint-advance|stop-at-a-passed-checkpoint|"+cls, fmt.Sprintf("a getheaders sent to %s continues from height %d and stops at the checkpoint at height %d, which lies at or below it", g.Node, from, ch))
+				break
+			}
+		}
+		x.count("getheaders_with_a_checkpoint_stop_judged", int64(judged))
+	}
 	// --- checkpoint advance (single honest node serving the whole sync) ---------------
 	if stage == "end" && len(s.CheckpointHeights) > 0 && len(s.Nodes) == 1 && s.Nodes[0].Kind == "honest" && !s.DisableCheckpoints && s.InitialStore == "genesis" && !s.Nodes[0].losesFirstConnection() {
 		// The stop hash of every request follows from what the node has delivered so far (the sync manager sends a request only
